@@ -440,6 +440,10 @@ class Model(EconomicObject):
         Logger('Adding Country: {0} ID={1}', data_to_format=(country.Code, country.ID))
         if country.Code in self:
             raise LogicError('Country with Code {0} already in Model'.format(country.Code))
+        # Full sector codes generated so far (e.g., by LogInfo()) depend on the number of countries; they are
+        # stale now. Variable names requested from here on are aliases, resolved when the model is run.
+        for sector in self.GetSectors():
+            sector.FullCode = ''
         self.CountryList.append(country)
         self.DefaultCurrency = country.Currency
         czone = self._FitIntoCurrencyZone(country)
